@@ -232,7 +232,7 @@ func gen(gg *hx.Gen) {
 			i++
 		}
 	}()
-	n := g.Count(14000, 300000)
+	n := g.Count(14000, 150000)
 	r := g.R
 	for i := 0; i < n; i++ {
 		key := genKey(g)
